@@ -39,6 +39,15 @@ CHECKS.update({
         "DESIGN.md §2 C04",
     ),
 })
+CHECKS.update({
+    "C01": (
+        "exploration",
+        "Hypothesis generated sky scenes + configurations through the public pipeline vs brute-force O(N^2) pair-count reference (differential)",
+        "Generated-input search: scenes are laid out relative to the configuration's largest angle so that cross-patch pairs near the pruning threshold, low/high redshift, poles and the RA seam are reached by construction; every (scale, bin, patch pair) cell and every weight sum is compared with an independent brute-force count. Exploration, since catalogs and configurations are unbounded.",
+        "astropy distances and numpy as reference; cells with a pair within 1e-12+1e-9*theta of an edge are skipped; small catalogs (<=5 patches, <=9 objects per patch)",
+        "DESIGN.md §2 C01",
+    ),
+})
 NOT_YET = {}
 
 props = [json.loads(l) for l in (VERIF / "properties.jsonl").read_text().splitlines() if l.strip()]
